@@ -7,6 +7,7 @@ from concurrent.futures import ThreadPoolExecutor
 
 from harness.common import Prop, canon, VERIF, evaluate
 from harness import gen_build as G
+from harness import gen_models as M
 
 
 def strip(c):
@@ -40,6 +41,19 @@ class C08(Prop):
     def gen_named_case(self, rng):
         for _ in range(200):
             c = G.gen_case(rng, want_mc=False)
+            if rng.random() < 0.5:
+                # port names that differ only in case / sort differently under other collations
+                ren = dict(zip([p['name'] for p in c['_info']['ports'] if p['dir'] == 'requires'],
+                               rng.sample(['logOut', 'logout', 'LOGOUT', 'Zeta', 'alpha', 'a_b', 'aB'], 7)))
+                comp = G.find_elem(c['src'], lambda e: e['k'] in ('component', 'system'))
+                for p in comp['ports']:
+                    p['name'] = ren.get(p['name'], p['name'])
+                for p in c['_info']['ports']:
+                    p['name'] = ren.get(p['name'], p['name'])
+                c['ast'] = M.enc_root(c['src'])
+                for k in ('rsts', 'rmts'):
+                    if 'names' in c['cfg']['ports'][k]:
+                        c['cfg']['ports'][k]['names'] = [ren.get(x, x) for x in c['cfg']['ports'][k]['names']]
             req = [p['name'] for p in c['_info']['ports'] if p['dir'] == 'requires' and not p['injected']]
             prov = [p['name'] for p in c['_info']['ports'] if p['dir'] == 'provides']
             if len(req) >= 2:
